@@ -415,6 +415,12 @@ func installHook(kind string) {
 			p.SafeString("H<")
 			panic(lib.PlainDict(903))
 		})
+	case "silent":
+		// a hook that chooses to print nothing for an error (e.g. hides a sentinel): the operand is rendered solely by
+		// the hook, so nothing of it appears
+		redact.RegisterRedactErrorFn(func(err error, p redact.SafePrinter, verb rune) {
+			logHook(err, verb)
+		})
 	default:
 		panic("unknown hook kind " + kind)
 	}
@@ -545,6 +551,7 @@ func judgePrinter(rep *lib.Report, prop string, c *lib.Ctx, ln *printerLine, res
 		judgeSafeNumberTwin(rep, c, ln, res, kase)
 	}
 	if is("C06") {
+		judgeC06Nested(rep, c, ln, res, kase)
 		judgeC06(rep, c, ln, res, kase)
 		if currentSlice == "rnd" {
 			judgeC06Rnd(rep, c, ln, res, kase)
@@ -724,6 +731,44 @@ func judgeC06(rep *lib.Report, c *lib.Ctx, ln *printerLine, res *realResult, kas
 			rep.Violate("printer:wrapper-chars", fmt.Sprintf("%s: characters %q, fmt prints %q", desc, got, std), kase)
 		}
 	}
+}
+
+// judgeC06Nested: the two envelope clauses for wrappers at ANY depth of an operand (judgeC06 handles the operand that is
+// itself a wrapper).  Statement-level: the outermost declaration above a leaf decides -- a payload that stands under
+// Unsafe() never shows outside envelopes, a payload under Safe() is never inside one.  (Payloads = the opaque texts of
+// strings and of String/Error/SafeMessage results; cases with scripted methods are left to the model comparison.)
+func judgeC06Nested(rep *lib.Report, c *lib.Ctx, ln *printerLine, res *realResult, kase json.RawMessage) {
+	if res.Panicked || hasScripts(ln.C.Ts) || !lib.WellFormed(res.Out) {
+		return
+	}
+	cm := lib.CtxMap(ln.C.Ts)
+	vis := lib.DeleteEnvelopes(res.Out)
+	all := lib.Strip(res.Out)
+	walkTerms(ln.C.Ts, func(t *lib.Term) {
+		if len(t.B) == 0 || len(t.Pan) > 0 || !(t.K == "string" || t.K == "sstr" || t.K == "obj") {
+			return
+		}
+		pure := true
+		for _, x := range t.B {
+			if x < lib.PTok {
+				pure = false
+			}
+		}
+		if !pure {
+			return
+		}
+		txt := c.Subst(t.B)
+		switch cm[t.ID] {
+		case "unsafe":
+			if bytes.Contains(vis, txt) {
+				rep.Violate("printer:unsafe-not-enveloped", fmt.Sprintf("%s: %q stands under Unsafe() and shows outside envelopes: %q", caseString(c, ln.C), txt, res.Out), kase)
+			}
+		case "safe":
+			if bytes.Contains(all, txt) && bytes.Count(vis, txt) != bytes.Count(all, txt) {
+				rep.Violate("printer:safe-enveloped", fmt.Sprintf("%s: %q stands under Safe() and is inside an envelope: %q", caseString(c, ln.C), txt, res.Out), kase)
+			}
+		}
+	})
 }
 
 // judgeC06Rnd: the "characters are those fmt prints for x" clause on the operand lists of the random slice.  Every operand
